@@ -7,6 +7,7 @@ Spec/Hashes.lean against the crate outputs on every run).
 Property theorems only.
 -/
 import PkgsrcVerif.Model.Digest
+import PkgsrcVerif.Lemmas.BlockBuffer
 open M
 
 /-- all bytes a schedule delivers before its first EOF (errors excluded by hypothesis) -/
@@ -147,3 +148,44 @@ example : (⟨Bytes, [], fun s b => s ++ b, fun s => s⟩ : Hasher).Lawful :=
 
 example : errorFree [.data [1], .interrupted, .data [2, 3], .interrupted, .eof, .error] = true ∧
     delivered [.data [1], .interrupted, .data [2, 3], .interrupted, .eof, .error] = [1, 2, 3] := by decide
+
+/-! ### the streaming law is not an empty hypothesis: block-buffered cores satisfy it -/
+
+/-- **Every block-buffered hash core satisfies the streaming law** the theorems above assume —
+    whatever its block size, compression function, initial value and padding, and whether it
+    compresses a block as soon as it is full (MD5, SHA-1, SHA-256/512, RIPEMD-160) or keeps a full
+    block back until more input arrives (BLAKE2s).  This is the architecture of all six
+    RustCrypto cores the crate dispatches to (`CoreWrapper` over `BlockBuffer`), modelled in
+    Model/BlockBuffer.lean; what remains a parameter is the arithmetic of the compression
+    functions themselves. -/
+theorem C13_block_buffered_cores_are_lawful (B : BlockHash) : (L.hasherR B).Lawful :=
+  L.hasherR_lawful B
+
+/-- hence, for any such core: reading the data in ANY schedule of reads without a hard error —
+    any sizes, any interruptions — gives the hex of the ONE-SHOT computation over the delivered
+    bytes (compress every complete block of the whole message in order, then pad the remainder
+    with the total length) -/
+theorem C13_block_buffered_schedule (B : BlockHash) (evs : List ReadEvent) (he : errorFree evs = true) :
+    hashFile (L.hasherR B) (L.hasherR B).init evs = some (hexLower (B.oneShot (delivered evs))) := by
+  rw [C13_schedule_independent (L.hasherR B) (L.hasherR_lawful B) _ evs he, L.hasherR_final_update]
+
+/-- … and feeding the pieces directly to the core (as `hash_patch` does, line by line) is the
+    one-shot computation over their concatenation -/
+theorem C13_block_buffered_pieces (B : BlockHash) (chunks : List Bytes) :
+    B.hasher.final (chunks.foldl B.hasher.update B.hasher.init) = B.oneShot chunks.flatten :=
+  L.stream_eq_oneShot B chunks
+
+/-- non-vacuity: a toy eager core with 4-byte blocks (chaining value = list of block sums), fed
+    "abcdefghij" as 3+1+6 bytes and at once -/
+def toyCore : BlockHash where
+  Chain := List Nat
+  blk := 4
+  blk_pos := by decide
+  keepLast := false
+  iv := []
+  compress h b := h ++ [(b.map (·.toNat)).sum]
+  finish h rest n := (h ++ [rest.length, n]).map UInt8.ofNat
+
+example : toyCore.hasher.final ([[97, 98, 99], [100], [101, 102, 103, 104, 105, 106]].foldl
+    toyCore.hasher.update toyCore.hasher.init) = toyCore.oneShot [97, 98, 99, 100, 101, 102, 103, 104, 105, 106] :=
+  C13_block_buffered_pieces toyCore _
